@@ -13,13 +13,33 @@ import (
 	"strconv"
 	"strings"
 	"sync"
+	"sync/atomic"
 	"time"
 )
 
 var verifDir = "/verif"
 
+var memExceeded int32
+
 func main() {
 	debug.SetGCPercent(400)
+	debug.SetMemoryLimit(40 << 30)
+	go func() {
+		// memory watchdog: an exploding encoding must end as INCONCLUSIVE, not as an OOM kill
+		var ms runtime.MemStats
+		for {
+			time.Sleep(2 * time.Second)
+			runtime.ReadMemStats(&ms)
+			if ms.HeapAlloc > 24<<30 {
+				// stop exploring; what was found so far is still reported (as inconclusive at best)
+				atomic.StoreInt32(&memExceeded, 1)
+			}
+			if ms.HeapAlloc > 44<<30 {
+				fmt.Println("INCONCLUSIVE memory budget exceeded by the encoding")
+				os.Exit(2)
+			}
+		}
+	}()
 	if len(os.Args) < 2 {
 		fmt.Fprintln(os.Stderr, "usage: symgo run|list|replay ...")
 		os.Exit(2)
